@@ -384,6 +384,21 @@ namespace verif
                 V_CHECK(seen_set == want, "C17/jar-pairs-differ",
                         "jar of \"" + printable(header, 200) + "\" holds " + std::to_string(seen_set.size()) + " pairs, expected " + std::to_string(want.size()));
                 V_CHECK(size_t(std::distance(jar.begin(), jar.end())) == want.size(), "C17/jar-distance", "std::distance(begin,end) != number of distinct pairs");
+                // the same walk through operator* (what a range-for uses, and what the library's own
+                // serialisers of cookie jars use): exactly these pairs, each once
+                {
+                    std::multiset<std::pair<std::string, std::string>> by_deref;
+                    size_t st = 0;
+                    for (const auto& ck : jar)
+                    {
+                        by_deref.insert({ ck.name, ck.value });
+                        if (++st > pairs.size() + 2)
+                            break;
+                    }
+                    std::multiset<std::pair<std::string, std::string>> want_ms(want.begin(), want.end());
+                    V_CHECK(by_deref == want_ms, "C17/jar-range-for-differs",
+                            "a range-for over the jar of \"" + printable(header, 200) + "\" does not yield each stored pair once (" + std::to_string(by_deref.size()) + " cookies seen, " + std::to_string(want_ms.size()) + " stored)");
+                }
                 // post-increment walks the same
                 size_t steps2 = 0;
                 for (auto it = jar.begin(); it != jar.end(); it++)
